@@ -530,7 +530,7 @@ def fuzz_campaign(pid, bdir, seed, viols, rdir, runs=2000000):
     return {'libfuzzer': {'executions': execs, 'corpus_files': len(os.listdir(corpus)), 'artifacts': len(crashes), 'fatal_monitors': pid}}
 
 def c03_fuzz(bdir, seed, viols, rdir):
-    return fuzz_campaign('C03', bdir, seed, viols, rdir)
+    return fuzz_campaign('C03', bdir, seed, viols, rdir, runs=16000000)
 
 check('C03', custom=c03_custom, progs=[(p, c) for p, c, _, _ in C03_REPLAY], level='exploration')
 
